@@ -457,7 +457,18 @@ def is_single_color_image(image):
     color = result[0][1]
     if image.mode == 'P':
         palette = image.getpalette()
-        return palette[color*3], palette[color*3+1], palette[color*3+2]
+        rgb = palette[color*3], palette[color*3+1], palette[color*3+2]
+        # the palette entry can be (partly) transparent: that is another color
+        transparency = image.info.get('transparency')
+        if isinstance(transparency, bytes):
+            alpha = transparency[color] if color < len(transparency) else 255
+        elif transparency is not None:
+            alpha = 0 if transparency == color else 255
+        else:
+            alpha = 255
+        if alpha != 255:
+            return rgb + (alpha, )
+        return rgb
 
     return result[0][1]
 
